@@ -58,9 +58,56 @@ def gen(root, out):
                 alt = {"'('": "')'", "')'": "'('", "'['": "']'", "']'": "'['", "'{'": "'}'", "'}'": "'{'", "','": "';'", "';'": "','", "'\"'": "'`'", "'.'": "'_'", "'_'": "'.'",
                        "'e'": "'f'", "'E'": "'F'", "'0'": "'1'", "'9'": "'8'", "' '": "'_'", "'\\n'": "' '"}.get(t.s)
                 if alt: add(alt, 'char')
-    for k, m in enumerate(muts): m['id'] = 'M%04d' % k
+        if '2' in os.environ.get('MUT_BATCH', '1'):
+            _batch2(fn, src, toks, muts)
+    if os.environ.get('MUT_BATCH', '1') == '2': muts = [m for m in muts if m['op'] in ('if_const', 'del_stmt', 'swap_args', 'range_incl')]
+    for k, m in enumerate(muts): m['id'] = ('M%04d' if os.environ.get('MUT_BATCH', '1') == '1' else 'N%04d') % k
     json.dump(muts, open(out, 'w'), indent=0)
     print(len(muts), 'mutants')
+
+def _batch2(fn, src, toks, muts):
+    """second batch: constant conditions, deleted call statements, swapped identifier arguments, inclusive ranges"""
+    from vx.rustsrc import lex as _lex
+    # mates
+    st = []
+    mate = {}
+    for i, t in enumerate(toks):
+        if t.s in ('(', '[', '{'): st.append(i)
+        elif t.s in (')', ']', '}') and st:
+            j = st.pop(); mate[j] = i; mate[i] = j
+    def line(o): return src.count('\n', 0, o) + 1
+    for i, t in enumerate(toks):
+        if t.k == 'id' and t.s == 'if' and i + 1 < len(toks) and toks[i + 1].s != 'let':
+            j = i + 1
+            while j < len(toks) and toks[j].s != '{':
+                if toks[j].s in ('(', '['): j = mate.get(j, j)
+                j += 1
+            if j < len(toks) and j > i + 1:
+                a, b = toks[i + 1].a, toks[j - 1].b
+                if 'let' in src[a:b]: continue
+                for new in ('true', 'false'):
+                    muts.append(dict(file=fn, a=a, b=b, old=src[a:b], new=new, line=line(a), op='if_const'))
+        # a statement that is a bare call: `recv.meth(args)?;` or `recv.meth(args);` preceded by `;` `{` or `}`
+        if t.s == ';' and i > 2 and toks[i - 1].s in (')', '?'):
+            k = i - 1
+            if toks[k].s == '?': k -= 1
+            if toks[k].s != ')' or k not in mate: continue
+            o = mate[k]
+            # walk back over the receiver path
+            b0 = o - 1
+            while b0 > 0 and (toks[b0].k == 'id' or toks[b0].s in ('.', '::')) : b0 -= 1
+            if toks[b0].s == ')' and b0 in mate:      # e.g. Manager::new().register(..)
+                b0 = mate[b0] - 1
+                while b0 > 0 and (toks[b0].k == 'id' or toks[b0].s in ('.', '::')): b0 -= 1
+            if toks[b0].s not in (';', '{', '}'): continue
+            first = toks[b0 + 1]
+            if first.s in ('return', 'let', 'break', 'continue', 'write', 'assert', 'assert_eq', 'panic'): continue
+            muts.append(dict(file=fn, a=first.a, b=t.b, old=src[first.a:t.b], new='', line=line(first.a), op='del_stmt'))
+        if t.s == '(' and i in mate and mate[i] == i + 4 and toks[i + 1].k == 'id' and toks[i + 2].s == ',' and toks[i + 3].k == 'id' and toks[i - 1].k == 'id' and toks[i - 2].s != 'fn' and toks[i + 1].s != toks[i + 3].s:
+            a, b = toks[i + 1].a, toks[i + 3].b
+            muts.append(dict(file=fn, a=a, b=b, old=src[a:b], new='%s, %s' % (toks[i + 3].s, toks[i + 1].s), line=line(a), op='swap_args'))
+        if t.s == '..' and i + 1 < len(toks) and toks[i + 1].s not in (']', ')', ',', '}'):
+            muts.append(dict(file=fn, a=t.a, b=t.b, old='..', new='..=', line=line(t.a), op='range_incl'))
 
 def _copy(root):
     d = tempfile.mkdtemp(prefix='mut_')
@@ -89,7 +136,7 @@ def test(root, mfile, out, workers=8):
             for m in chunk:
                 _apply(d, root, m)
                 try:
-                    r = subprocess.run(['cargo', 'test', '--workspace', '--no-fail-fast', '--offline', '-q'], cwd=d, env=env, capture_output=True, text=True, timeout=240)
+                    r = subprocess.run(['cargo', 'test', '--workspace', '--no-fail-fast', '--offline', '-q'], cwd=d, env=env, capture_output=True, text=True, timeout=100)
                     txt = r.stdout + r.stderr
                     if 'error: could not compile' in txt or re.search(r'^error(\[E\d+\])?:', txt, re.M) and 'test result' not in txt: st = 'nocompile'
                     elif r.returncode == 0: st = 'survives'
